@@ -220,6 +220,8 @@ def plain_case(ctx, rng, max_o=5, max_s=6):
 
 def ordered_case(ctx, rng, max_o=4, max_s=4, max_f=3):
     c = gen.rand_case(rng, max_o, max_s, rng.randint(1, max_f), plain=False)
+    if rng.random() < 0.3:
+        c["costs"] = label_costs(rng)
     if rng.random() < 0.15:
         # prescribed root order: a common supersequence of the leaves if one exists
         from itertools import permutations
@@ -232,8 +234,29 @@ def ordered_case(ctx, rng, max_o=4, max_s=4, max_f=3):
     return c
 
 
+def label_costs(rng):
+    """Coherent cost vectors with a positive (often large) segmental-loss cost and cheap transfers:
+    the region where the choice of labels, not of species, decides the optimum."""
+    while True:
+        cs = {"spe": rng.choice([0, 0, 1]), "dup": rng.randint(0, 3), "hgt": rng.choice([0, 1, 1, 2, 3]),
+              "floss": rng.randint(0, 3), "sloss": rng.randint(1, 3)}
+        if gen.coherent(cs):
+            return cs
+
+
 def unordered_case(ctx, rng, max_o=5, max_s=4, max_f=4):
-    return gen.rand_case(rng, max_o, max_s, rng.randint(1, max_f), plain=False, unordered=True)
+    k = rng.random()
+    if k < 0.12:
+        # both children of some node internal, families confined to clades (gains at several depths)
+        costs = None if rng.random() < 0.5 else {"spe": 0, "dup": 1, "hgt": 1, "floss": 1, "sloss": 1}
+        return gen.clade_case(rng, 6, 7, 2, rng.randint(3, 4), True, costs)
+    if k < 0.55:
+        return gen.rand_case(rng, max_o, max_s, rng.randint(1, max_f), plain=False, unordered=True)
+    # deeper object trees over few species, several families, label-driven costs
+    c = gen.rand_case(rng, max_o + 1, max(2, max_s - 1), rng.randint(2, max_f), plain=False, unordered=True)
+    if rng.random() < 0.6:
+        c["costs"] = label_costs(rng)
+    return c
 
 
 def _leaves(O, p=""):
